@@ -491,3 +491,30 @@ class GetSupvisorsInstance:
 
     def post_strategy(supvisors, strategy, identifiers, expected_load, load_request_map, result):
         return result is None or chosen_by_strategy(supvisors, strategy, identifiers, load_request_map, expected_load, result)
+
+
+@contract('strategy:get_node', props=['C14'])
+class GetNode:
+    """C14: 'for SINGLE_NODE to instances of one single node': the node returned is the machine of the instance that the
+    strategy picks among the candidates for the given load (None exactly when nobody qualifies)"""
+    raises = ()
+    types = {'supvisors': 'Supvisors'}
+
+    def modifies():
+        return []
+
+    def pre_placement(supvisors, load_request_map):
+        return placement_pre(supvisors, load_request_map)
+
+    def pre_identifiers_not_empty_strings(supvisors):
+        """shape: '' is not an instance identifier (`if identifier:` would take it for 'no instance')"""
+        return '' not in supvisors.context.instances
+
+    def post_machine_of_the_choice(supvisors, strategy, identifiers, expected_load, load_request_map, result):
+        return result is None or exists(identifiers, lambda i: (
+            qualifies(supvisors, identifiers, load_request_map, expected_load, i)
+            and chosen_by_strategy(supvisors, strategy, identifiers, load_request_map, expected_load, i)
+            and result == machine_of(supvisors, i)))
+
+    def post_none_iff(supvisors, strategy, identifiers, expected_load, load_request_map, result):
+        return none_iff_nobody(supvisors, strategy, identifiers, load_request_map, expected_load, result)
